@@ -218,7 +218,22 @@ pub fn install_emit_handler() {
                 *CLEAR_DONE_RT.lock().unwrap().get_or_insert_with(Default::default).entry(id).or_insert(0) += 1;
             }
         } else {
-            *EMIT_COUNTS.lock().unwrap().get_or_insert_with(Default::default).entry((name.to_string(), detail.to_string())).or_insert(0) += 1;
+            let mut g = EMIT_COUNTS.lock().unwrap();
+            let m = g.get_or_insert_with(Default::default);
+            if name == "matcher.batch_done" {
+                // detail = "<subscription id>|<candidates in the batch>": counted per id, and once
+                // more under ".big" when the batch held a whole barrier (>= 1000 candidates) - a
+                // batch cut by the matcher's 600 ms deadline is never that large
+                let mut p = detail.splitn(2, '|');
+                let id = p.next().unwrap_or("").to_string();
+                let n: usize = p.next().and_then(|x| x.parse().ok()).unwrap_or(0);
+                *m.entry((name.to_string(), id.clone())).or_insert(0) += 1;
+                if n >= 1000 {
+                    *m.entry(("matcher.batch_done.big".to_string(), id)).or_insert(0) += 1;
+                }
+            } else {
+                *m.entry((name.to_string(), detail.to_string())).or_insert(0) += 1;
+            }
         }
     })));
 }
